@@ -1,4 +1,5 @@
 import DdoModel.ParSolver
+import DdoModel.Proofs.ParSync
 import DdoModel.Engines.Seq
 /-! Driver engine `par`: trace validation of the parallel solver under the controlled scheduler.
     The tape is the linearised run: `w<i> @ <section>` marks worker `i` entering a critical section,
@@ -16,7 +17,7 @@ inductive CRes | cut | ok (exact : Bool)
 deriving DecidableEq
 
 inductive WPc
-  | notStarted | idle | waiting | exiting | gone
+  | notStarted | idle | waiting | exiting | gone | crashedW
   | readLb1 (n : SubP Int)                     -- holds `n`; next section: read_lb
   | compR (n : SubP Int) (lb : Int)            -- next entry: DC restricted
   | upd1 (n : SubP Int) (ex : Bool)            -- next section: update_best
@@ -34,6 +35,17 @@ structure PSim where
   nbVars : Nat
 
 def setPc (s : PSim) (i : Nat) (p : WPc) : PSim := { s with pcs := s.pcs.set i p }
+
+/-- abstraction of the executable model's state to the synchronisation skeleton `ParSync` (C04) -/
+def absPc : WPc → ParSync.Pc
+  | .notStarted | .idle => .idle
+  | .waiting => .waiting
+  | .exiting | .gone => .done
+  | .crashedW => .crashed
+  | .fin _ true => .aborting
+  | _ => .held
+def absSt (s : PSim) : ParSync.PSt :=
+  { fringe := s.c.base.fringe.length, ongoing := s.c.ongoing, abort := s.c.base.abort, pcs := s.pcs.map absPc, ubSlots := s.c.upperBounds.length }
 
 /-- entries of worker `i` that follow, up to (not including) the next marker -/
 def takeSection (i : String) : List (List String) → List (List String) × List (List String)
@@ -56,6 +68,9 @@ def simGetWorkload (s : PSim) (i : Nat) (ents : List (List String)) : Except Str
   if cls != want then throw s!"get_workload: cleared layers {cls}, model expects {want}"
   let ents := ents.drop nclear
   let c := { c with base := { c.base with firstActive := fa' } }
+  -- do we need to stop (tested first since fix D4)
+  if c.base.abort then
+    if ents != [] then throw "get_workload: calls after Aborted" else return (c, .aborted)
   -- are we done?
   let (ents, done) ← (if c.ongoing == 0 then
       match ents with
@@ -66,8 +81,6 @@ def simGetWorkload (s : PSim) (i : Nat) (ents : List (List String)) : Except Str
     else pure (ents, false) : Except String (List (List String) × Bool))
   if done then
     if ents != [] then throw "get_workload: calls after Complete" else return (c.complete, .complete)
-  if c.base.abort then
-    if ents != [] then throw "get_workload: calls after Aborted" else return (c, .aborted)
   match ents with
   | ["FL", n] :: ents =>
     if n != toString c.base.fringe.length then throw s!"get_workload: fringe length {n}, model {c.base.fringe.length}"
@@ -146,6 +159,7 @@ def simStep (s : PSim) (i : Nat) (label : String) (ents : List (List String)) : 
       if ents != [] then throw "process_one_node: calls after the node was found below the incumbent" else pure (setPc s i (.fin n false))
     else
       match ents with
+      | [] => pure (setPc s i (if relaxed then .compX n lb else .compR n lb))     -- the compilation is reported later (scheduling points inside it)
       | [e] =>
         match parseDC e, widthOf n with
         | some (ct, w, t, lbT, r), some width =>
@@ -160,8 +174,10 @@ def simStep (s : PSim) (i : Nat) (label : String) (ents : List (List String)) : 
       | _ => throw s!"process_one_node: expected exactly one compilation after read_lb, tape has {ents}"
   match label, pc with
   | "start", .notStarted => if ents != [] then throw "calls before the first section" else pure (setPc s i .idle)
-  | "cache_get", _ => pure s
-  | "cache_upd", _ => pure s
+  | "cache_get", .compR n lb => if ents == [] then pure s else afterRead s n lb false ents
+  | "cache_upd", .compR n lb => if ents == [] then pure s else afterRead s n lb false ents
+  | "cache_get", .compX n lb => if ents == [] then pure s else afterRead s n lb true ents
+  | "cache_upd", .compX n lb => if ents == [] then pure s else afterRead s n lb true ents
   | "get_workload", .idle =>
     let (c, wl) ← simGetWorkload s i ents
     let s := { s with c := c }
@@ -171,7 +187,7 @@ def simStep (s : PSim) (i : Nat) (label : String) (ents : List (List String)) : 
     | .wait => pure (setPc s i .waiting)
     | .starvation => pure (setPc s i .idle)
     | .item n => pure (setPc s i (.readLb1 n))
-    | .crash => pure (setPc s i .exiting)
+    | .crash => pure (setPc s i .crashedW)
   | "read_lb", .readLb1 n => afterRead s n s.c.readLb false ents
   | "read_lb", .readLb2 n => afterRead s n s.c.readLb true ents
   | "update_best", .upd1 n ex =>
@@ -190,8 +206,18 @@ def simStep (s : PSim) (i : Nat) (label : String) (ents : List (List String)) : 
     if b.crashed then throw "enqueue_cutset: open_by_layer index out of range in the model"
     pure (setPc { s with c := { s.c with base := b } } i (.fin n false))
   | "abort_search", .abortS n =>
-    if ents != [["FC"], ["CC"]] then throw "abort_search: expected fringe.clear ; cache.clear"
-    pure (setPc { s with c := s.c.abortSearch n.ub } i (.fin n true))
+    match ents with
+    | [("FO" :: pt), ["FC"], ["CC"]] =>
+      let top ← (if pt == ["none"] then
+          (if s.c.base.fringe.isEmpty then pure none else throw "abort_search: pop returned none on a non-empty fringe")
+        else match parseTSub pt with
+          | some t =>
+            if !(s.c.base.fringe.any (fun y => subEq y t)) then throw "abort_search: popped node is not in the model's fringe"
+            else if s.c.base.fringe.any (fun y => y.ub > t.ub) then throw "abort_search: popped node does not carry the largest bound of the fringe"
+            else pure (some t.ub)
+          | none => throw "abort_search: unreadable pop" : Except String (Option Int))
+      pure (setPc { s with c := s.c.abortSearch n.ub top } i (.fin n true))
+    | _ => throw "abort_search: expected fringe.pop ; fringe.clear ; cache.clear"
   | "notify_finished", .fin n thenExit =>
     if ents != [] then throw "notify_finished: unexpected calls"
     match s.c.notifyFinished i n.depth with
@@ -203,7 +229,8 @@ def simStep (s : PSim) (i : Nat) (label : String) (ents : List (List String)) : 
 
 def simPar (fam : Fam) (cfg : SCfg) (threads builtWith : Nat) (tape : List (List String)) : Except String PSim := do
   let P := fam.problem
-  let c0 : ParCrit Int := ParCrit.init P cfg.primal cfg.nodup builtWith
+  let _ := builtWith   -- `with_nb_threads` resizes `upper_bounds` (fix D3): the construction-time count no longer matters
+  let c0 : ParCrit Int := ParCrit.init P cfg.primal cfg.nodup threads
   match tape with
   | ["w-1", "CI"] :: ("w-1" :: "FP" :: pt) :: tape =>
     if parseTSub pt != some ⟨P.init, 0, P.initVal, iMax, 0⟩ then throw "root node differs"
@@ -219,8 +246,11 @@ def simPar (fam : Fam) (cfg : SCfg) (threads builtWith : Nat) (tape : List (List
           | [w, "@", label] =>
             let i := (w.drop 1).toNat!
             let (ents, rest') := takeSection w rest
-            let s ← simStep s i label ents
-            go fuel s rest'
+            let s' ← simStep s i label ents
+            -- C04: the section is invisible to the synchronisation skeleton or exactly one of its steps, and the invariant holds
+            if !(ParSync.stepOrStutter (absSt s) (absSt s') i) then throw s!"worker {i}, section {label}: not a step of the synchronisation skeleton ParSync"
+            if !(ParSync.invB (absSt s')) then throw s!"worker {i}, section {label}: the bookkeeping invariant of ParSync is violated"
+            go fuel s' rest'
           | [w, "WAIT"] =>
             let i := (w.drop 1).toNat!
             match s.pcs[i]? with
@@ -235,7 +265,7 @@ def simPar (fam : Fam) (cfg : SCfg) (threads builtWith : Nat) (tape : List (List
           | [w, "CRASH"] =>
             let i := (w.drop 1).toNat!
             match s.pcs[i]? with
-            | some .exiting => go fuel (setPc s i .gone) rest
+            | some .crashedW => go fuel s rest
             | _ => throw s!"worker {i} crashes where the model does not"
           | _ => throw s!"unexpected entry {e}"
     go 1000000 s0 tape
